@@ -239,6 +239,9 @@ def _str_escape(s: str) -> str:
             c = r'\v'
         elif c == "\\": 
             c = r'\\'
+        elif ord(c) < 32 or ord(c) == 127:
+            # Other control characters can't be carried by the output (docutils drops NUL): show the escape.
+            c = '\\x%02x' % ord(c)
         return c
 
     # Escape it
